@@ -16,7 +16,16 @@ PID = "C15"
 
 WORDS = ["Pen", "Zoo", "Monkey", "BoxLid"]
 # conforming names with one-letter words (only where names are not concatenated: a capital next to a capital would be an acronym)
-WORDS_B = ["PointA", "Cd", "LongNameHere", "Q"]
+WORDS_B = ["PointA", "Cd", "LongNameHere", "Q", "Sensor2"]
+# names with a digit (the linter accepts them as PascalCase); whether the digit gets its own word in UPPER_SNAKE is not
+# documented, so macro names are compared modulo underscores next to digits - but they must be cased the same way
+# with and without a prefix, nested and at top level
+WORDS_C = [("Hub", "Port2", "Zoo", "Pen"), ("Port2", "Hub", "Zoo", "Pen"), ("Zoo", "Pen", "Port2", "Hub"), ("V2Id", "Pen", "Hub", "Zoo")]
+
+
+def nd(name):
+    """Normal form modulo underscores next to digits."""
+    return re.sub(r"_(?=\d)|(?<=\d)_", "", name)
 PREFIXES = [None, "my_prefix_", "ab_"]
 
 
@@ -87,6 +96,10 @@ def states(tier):
     for pair in itertools.permutations(WORDS_B, 2):
         for prefix in PREFIXES:
             out.append(("flat", tuple(pair) + ("Zoo", "Pen"), prefix))
+    for perm in WORDS_C:
+        for sname in ("nested2", "nested3", "imports"):
+            for prefix in PREFIXES:
+                out.append((sname, perm, prefix))
     return out
 
 
@@ -182,12 +195,14 @@ def upper_snake_prefixed(prefix, flat):
 
 
 def names_nested_member(name, path, member):
-    """`name` = the enclosing names, each verbatim or in UPPER_SNAKE (words kept apart), in order, followed by the member's own name."""
+    """`name` = the enclosing names, each verbatim or in UPPER_SNAKE (words kept apart), in order, followed by the member's own name.
+    Compared modulo underscores next to digits (see nd)."""
+    name, member = nd(name), nd(member)
     if not name.endswith(member):
         return False
     head, pos = name[:len(name) - len(member)], 0
     for p in path:
-        hits = [(head.find(v, pos), len(v)) for v in (p, upper_snake(p)) if head.find(v, pos) >= 0]
+        hits = [(head.find(v, pos), len(v)) for v in (nd(p), nd(upper_snake(p))) if head.find(v, pos) >= 0]
         if not hits:
             return False
         k, n = min(hits)
@@ -284,8 +299,8 @@ def run_unit(unit):
                             viol("c-names", "struct_or_fields", "struct %s with fields %s expected; header has %s" % (n, fields, {k2: v for k2, v in structs.items()}), lang)
                     if not exp["c"]["typedefs"] <= typedefs:
                         viol("c-names", "typedef", "typedefs %s expected; header has %s" % (sorted(exp["c"]["typedefs"]), sorted(typedefs)), lang)
-                    if not exp["c"]["macros"] <= macros:
-                        viol("c-names", "macro", "macros %s missing; header has %s" % (sorted(exp["c"]["macros"] - macros), sorted(macros)), lang)
+                    if not {nd(x) for x in exp["c"]["macros"]} <= {nd(x) for x in macros}:
+                        viol("c-names", "macro", "macros %s missing; header has %s" % (sorted({nd(x) for x in exp["c"]["macros"]} - {nd(x) for x in macros}), sorted(macros)), lang)
                     for parts in exp["c"].get("ordered_macros", []):
                         if not any(contains_in_order(mname, parts) for mname in macros):
                             viol("c-names", "nested_member_macro", "no macro names %s in that order; header has %s" % (parts, sorted(macros)), lang)
@@ -392,7 +407,7 @@ def run_unit(unit):
                         for meth in ("Encode", "Decode", "Size"):
                             if (sn, meth) not in m.methods:
                                 viol("go-names", "methods", "%s.%s missing" % (sn, meth), lang)
-                        if ("BYTES_LENGTH_" + upper_snake(sn)) not in gconsts:
+                        if nd("BYTES_LENGTH_" + upper_snake(sn)) not in {nd(x) for x in gconsts}:
                             viol("go-names", "size_constant", "BYTES_LENGTH_%s missing; consts %s" % (upper_snake(sn), sorted(gconsts)), lang)
                     if not exp["go"]["types"] <= set(m.types):
                         viol("go-names", "types", "%s missing" % sorted(exp["go"]["types"] - set(m.types)), lang)
